@@ -8,6 +8,7 @@
 //     requested ID, Ext1/Ext2 = the ID, the document bytes, the final status), and
 //   - the real docsStream (batchLoader goroutine + calcChunkSize, through storeapi/export_verif_c04.go)
 //     to observe the batch lengths.
+//
 // A panic in the batchLoader goroutine kills the child; the parent sees a dead child and records it as
 // the outcome of the request. calcChunkSize is also driven directly on generated size vectors.
 // The observations are written as Coq cases (props/C04/coq/CaseDefs.v).
@@ -59,6 +60,7 @@ type FracSpec struct {
 }
 
 type Scenario struct {
+	Huge     int        `json:"huge"` // thorough tier: one request of that many IDs
 	Kind     string     `json:"kind"`
 	Fracs    []FracSpec `json:"fracs"`
 	Restart  bool       `json:"restart"`
@@ -327,10 +329,11 @@ func registerOps() {
 // ------------------------------------------------------------------------------------------ generators
 
 type gen struct {
-	r      *rng.R
-	nextNo uint64
-	short  [8]uint64 // next tag for documents shorter than 8 bytes, per length
-	used   map[[2]uint64]bool
+	noBigMID bool // "recent" scenarios: MIDs >= 2^63 only in the dedicated request class mid-above-int64
+	r        *rng.R
+	nextNo   uint64
+	short    [8]uint64 // next tag for documents shorter than 8 bytes, per length
+	used     map[[2]uint64]bool
 }
 
 func newGen(r *rng.R) *gen { return &gen{r: r, nextNo: 1, used: map[[2]uint64]bool{}} }
@@ -417,6 +420,7 @@ func (g *gen) scenario(kind string) Scenario {
 		// window contains the documents. The only scenario kind whose IDs depend on the wall clock.
 		base = uint64(time.Now().UnixMilli()) - 20*60*1000
 		lastActive = false
+		g.noBigMID = true
 	}
 	switch kind {
 	case "big":
@@ -555,6 +559,9 @@ func (g *gen) absent(f fracView, stored map[[2]uint64]bool) (uint64, uint64) {
 			m, x = rng.Pick(r, []uint64{0, 1, from / 2}), g.rid()
 		case 10:
 			m, x = rng.Pick(r, []uint64{to * 2, 1 << 62, 1 << 63, ^uint64(0)}), g.rid()
+			if g.noBigMID && m >= 1<<63 {
+				m = 1<<63 - 1 - uint64(r.Intn(5))
+			}
 		default: // same random part as a stored ID, other timestamp
 			d := rng.Pick(r, f.docs)
 			m, x = d.MID+uint64(r.Range(1, 3)), d.RID
@@ -650,6 +657,29 @@ func (g *gen) requests(sc Scenario, views []fracView, tier string) []request {
 				m, x := absent()
 				push(m, x, 0)
 			}
+		case "mid-above-int64": // stored IDs plus absent IDs whose timestamp does not fit int64 milliseconds
+			for i := 0; i < n; i++ {
+				d, _ := pickPresent()
+				push(d.MID, d.RID, 0)
+			}
+			for i := r.Range(1, 2); i > 0; i-- {
+				push(rng.Pick(r, []uint64{1 << 63, ^uint64(0), 1<<63 + uint64(r.Intn(1000000))}), g.rid(), 0)
+			}
+			rng.Shuffle(r, ids)
+		case "huge": // up to 100k IDs: everything stored plus absent IDs around the fractions
+			for _, p := range present {
+				push(p.d.MID, p.d.RID, 0)
+			}
+			for i := 0; len(ids) < n && i < 3*n; i++ {
+				if i%3 == 0 {
+					m, x := absent()
+					push(m, x, 0)
+				} else {
+					v := views[rng.Pick(r, withDocs)]
+					push(v.info.From-2+uint64(r.Intn(int(v.info.To-v.info.From)+5)), uint64(r.Intn(60000)), 0)
+				}
+			}
+			rng.Shuffle(r, ids)
 		case "absent-heavy": // many IDs, very few (small) documents found: found bytes / requested IDs < 1
 			n = max(n, 1001+r.Intn(maxIDs))
 			small := []DocSpec{}
@@ -737,6 +767,12 @@ func (g *gen) requests(sc Scenario, views []fracView, tier string) []request {
 	}
 	add("absent-heavy", 0)
 	add("border", 0)
+	if sc.Kind == "recent" {
+		add("mid-above-int64", r.Range(2, 30))
+	}
+	if sc.Huge > 0 {
+		add("huge", sc.Huge)
+	}
 	return out
 }
 
@@ -827,6 +863,14 @@ func coqSent(sent [][4]uint64) string {
 func runScenario(seed uint64, tier string, idx int, kind string, cs constsResp) (out scenarioOut) {
 	g := newGen(rng.New(seed*1000003 + uint64(idx)*7919 + 17))
 	sc := g.scenario(kind)
+	if tier == "thorough" && kind == "small" {
+		switch {
+		case idx%100 == 1:
+			sc.Huge = 100000
+		case idx%25 == 2:
+			sc.Huge = 20000
+		}
+	}
 	dir, err := os.MkdirTemp("", "verif-c04-")
 	if err != nil {
 		return scenarioOut{err: err}
@@ -1150,9 +1194,9 @@ func main() {
 
 	// scenario plan
 	var kinds []string
-	nsmall, nbig, nlarge := 36, 3, 2
+	nsmall, nbig, nlarge, nrecent := 36, 3, 2, 2
 	if *tier == "thorough" {
-		nsmall, nbig, nlarge = 220, 12, 8
+		nsmall, nbig, nlarge, nrecent = 220, 12, 8, 8
 	}
 	for i := 0; i < nsmall; i++ {
 		if i%6 == 5 {
@@ -1167,10 +1211,8 @@ func main() {
 	for i := 0; i < nlarge; i++ {
 		kinds = append(kinds, "large-docs")
 	}
-	if os.Getenv("C04_RECENT") != "" {
-		for i := 0; i < 3; i++ {
-			kinds = append(kinds, "recent")
-		}
+	for i := 0; i < nrecent; i++ {
+		kinds = append(kinds, "recent")
 	}
 	outs := make([]scenarioOut, len(kinds))
 	var wg sync.WaitGroup
